@@ -10,7 +10,7 @@ Open Scope Z_scope.
 (* the property: whatever the server acknowledged (partitions, events - flushed or not -, pipes) is there after
    Shutdown + exit + start, for every state a running server and its directory can be in *)
 Theorem C07_clean : clean_statement code_fix.
-Proof. exact (clean_with_sync true true). Qed.
+Proof. exact (clean_with_sync code_fix eq_refl). Qed.
 Print Assumptions C07_clean.
 
 (* ... and these states include every state reached by a history of writes / flushes / pipe operations after a start *)
@@ -21,18 +21,18 @@ Theorem C07_clean_history : forall m d, reachable code_fix m d ->
 Proof. intros m d R. destruct (reachable_consistent _ _ _ R) as [C N]. exact (C07_clean m d C N). Qed.
 Print Assumptions C07_clean_history.
 
-(* false without the sync in partition.Service.Shutdown (whatever the other two switches): an acknowledged event still
+(* false without the sync in partition.Service.Shutdown (whatever the other switches): an acknowledged event still
    in a chunk writer's buffer is dropped *)
-Theorem C07_clean_nosync_refuted : forall fa fp, ~ clean_statement (mkFix false fa fp).
+Theorem C07_clean_nosync_refuted : forall fx, fx_sync fx = false -> ~ clean_statement fx.
 Proof.
-  intros fa fp H.
+  intros [fs fa fp fn fd] F H. cbn in F. subst fs.
   specialize (H (mkMem [O] [(O, [5])] [] [] [(O, O)]) (mkDisk (Some (Whole [O])) None None None [] 1%nat)).
   destruct H as (m' & d' & S & _ & _ & E).
   - split; [reflexivity|]. split; [intros p []|]. split.
     + intros p Hp. cbn in Hp. destruct p; [left; reflexivity|congruence].
     + split; [repeat constructor; intros []|]. intros p [<-|[]]. cbn. discriminate.
   - constructor.
-  - destruct fa; vm_compute in S; injection S as <- <-; specialize (E O); vm_compute in E; discriminate E.
+  - destruct fa, fn; vm_compute in S; injection S as <- <-; specialize (E O); vm_compute in E; discriminate E.
 Qed.
 Print Assumptions C07_clean_nosync_refuted.
 
@@ -49,14 +49,14 @@ Print Assumptions C07_clean_quiescent.
 (* the property: at every crash point of saveStateUnsafe (before / inside / after the write of tindex.dat.tmp, after the
    rename) Init succeeds and the index is the old or the new one *)
 Theorem C07_crash_tindex : tindex_crash_statement code_fix.
-Proof. exact (tindex_crash_atomic true true). Qed.
+Proof. exact (tindex_crash_atomic code_fix eq_refl). Qed.
 Print Assumptions C07_crash_tindex.
 
 (* false for a saver that renames tindex.dat to tindex.bak and writes tindex.dat in place: after the rename tindex.dat is
    missing, the index loads empty, a journal with data has no record, Init fails (tindex.bak is never read) *)
-Theorem C07_crash_tindex_inplace_refuted : forall fs fp, ~ tindex_crash_statement (mkFix fs false fp).
+Theorem C07_crash_tindex_inplace_refuted : forall fx, fx_atomic fx = false -> ~ tindex_crash_statement fx.
 Proof.
-  intros fs fp H.
+  intros [fs fa fp fn fd] F H. cbn in F. subst fa.
   specialize (H (mkDisk (Some (Whole [O])) None None None [(O, (O, [5]))] 1%nat) [O] [O; 1%nat]
                 (mkDisk None (Some (Whole [O])) None None [(O, (O, [5]))] 1%nat) eq_refl).
   destruct H as [H|H].
@@ -94,19 +94,19 @@ Print Assumptions C07_kill_between_saves.
 (* the crash-shaped states of the savers as the correspondence check applies them to a stopped directory (a start that
    dies inside the tag-index save, a shutdown that dies inside the pipes save): the directory is as it was *)
 Theorem C07_saver_crash_harmless : forall prev d g, saver_crash g -> apply_surgery code_fix prev d g = d.
-Proof. exact (saver_crash_harmless true). Qed.
+Proof. intros prev d g. exact (saver_crash_harmless code_fix prev d g eq_refl eq_refl). Qed.
 Print Assumptions C07_saver_crash_harmless.
 
 (* ================= pipe definitions ================= *)
 (* the property: after any history and a crash, pipes.dat holds the acknowledged pipe definitions *)
 Theorem C07_crash_pipes : pipes_crash_statement code_fix.
-Proof. exact (pipes_crash_fixed true true). Qed.
+Proof. exact (pipes_crash_fixed code_fix eq_refl). Qed.
 Print Assumptions C07_crash_pipes.
 
 (* false when pipes.dat is written by Shutdown only: one CREATE PIPE, SIGKILL *)
-Theorem C07_crash_pipes_shutdown_only_refuted : forall fs fa, ~ pipes_crash_statement (mkFix fs fa false).
+Theorem C07_crash_pipes_shutdown_only_refuted : forall fx, fx_pipes fx = false -> ~ pipes_crash_statement fx.
 Proof.
-  intros fs fa H. specialize (H empty_mem (mkDisk None None None (Some (Whole [])) [] O) [SPipe O] eq_refl).
+  intros [fs fa fp fn fd] F H. cbn in F. subst fp. specialize (H empty_mem (mkDisk None None None (Some (Whole [])) [] O) [SPipe O] eq_refl).
   vm_compute in H. discriminate H.
 Qed.
 Print Assumptions C07_crash_pipes_shutdown_only_refuted.
@@ -114,15 +114,15 @@ Print Assumptions C07_crash_pipes_shutdown_only_refuted.
 (* a crash inside the pipes save itself (before / inside the write of pipes.dat.tmp, after the rename): the definitions
    load, and are the old or the new ones *)
 Theorem C07_crash_pipes_save : pipes_save_crash_statement code_fix.
-Proof. exact (pipes_save_crash_atomic true true). Qed.
+Proof. exact (pipes_save_crash_atomic code_fix eq_refl). Qed.
 Print Assumptions C07_crash_pipes_save.
 
 (* false for a saver that writes pipes.dat in place: the empty file *)
-Theorem C07_crash_pipes_save_inplace_refuted : forall fs fa, ~ pipes_save_crash_statement (mkFix fs fa false).
+Theorem C07_crash_pipes_save_inplace_refuted : forall fx, fx_pipes fx = false -> ~ pipes_save_crash_statement fx.
 Proof.
-  intros fs fa H.
+  intros [fs fa fp fn fd] F H. cbn in F. subst fp.
   destruct (H (mkDisk None None None (Some (Whole [O])) [] O) [O] [O; 1%nat] _ eq_refl
-              (pcrash_torn (mkFix fs fa false) _ _ O eq_refl)) as [C|C]; vm_compute in C; discriminate C.
+              (pcrash_torn (mkFix fs fa false fn fd) _ _ O eq_refl)) as [C|C]; vm_compute in C; discriminate C.
 Qed.
 Print Assumptions C07_crash_pipes_save_inplace_refuted.
 
@@ -144,11 +144,65 @@ Theorem C07_pipe_catches_up_once : forall fx m d s t, mem_nat s (m_parts m) = tr
 Proof. exact drain_catches_up. Qed.
 Print Assumptions C07_pipe_catches_up_once.
 
+(* ================= partition removal, crash between its two effects ================= *)
+(* the property: at every crash point of deleteJournal (before / between / after the removal of the directory and the
+   save of the index without the record) the tag index initialises, with or without the partition *)
+Theorem C07_crash_drop : drop_crash_statement code_fix.
+Proof. exact (drop_crash_data_first code_fix eq_refl). Qed.
+Print Assumptions C07_crash_drop.
+
+(* false when the record goes first: between the two effects there is a journal with data and no record: Init fails *)
+Theorem C07_crash_drop_record_first_refuted : forall fx, fx_drop fx = false -> ~ drop_crash_statement fx.
+Proof.
+  intros [fs fa fp fn fd] F H. cbn in F. subst fd.
+  specialize (H (mkMem [O] [] [] [] [(O, O)]) (mkDisk (Some (Whole [O])) None None None [(O, (O, [5]))] 1%nat) O
+                (tsave (mkFix fs fa fp fn false) (mkDisk (Some (Whole [O])) None None None [(O, (O, [5]))] 1%nat) [])).
+  destruct H as [H|H].
+  - split; [reflexivity|]. split; [intros p Hp; cbn in Hp; destruct Hp as [<-|[]]; left; reflexivity|].
+    split; [intros p Hp; exfalso; apply Hp; reflexivity|]. split; [constructor|intros p []].
+  - repeat constructor. intros [].
+  - left. reflexivity.
+  - cbn. apply dcrash_later. apply dcrash_here.
+  - destruct fa; vm_compute in H; discriminate H.
+  - destruct fa; vm_compute in H; discriminate H.
+Qed.
+Print Assumptions C07_crash_drop_record_first_refuted.
+
 (* ================= the time-index snapshot ================= *)
-(* the property: after a start on any crash-shaped directory no flushed event is hidden from a time-range query.
-   False of the code: cindex.dat is written at clean shutdown only and survives a crash; the chunk's stale hull
-   [10,20] makes RANGE [25:45] skip the chunk that meanwhile holds 30 and 40 *)
-Theorem C07_crash_cindex_refuted : ~ range_after_start_statement code_fix.
+(* the property: after a crash of a running server (any history) and a start, no flushed event is hidden from a time-range
+   query (timestamps not decreasing inside a chunk - the other cases are C02's; chunk ids unique). The start of the crashed
+   session consumed the snapshot, the crash leaves none, every hull is rebuilt from its chunk *)
+Theorem C07_crash_cindex : range_after_crash_statement code_fix.
+Proof. exact (range_after_crash_consumed code_fix eq_refl). Qed.
+Print Assumptions C07_crash_cindex.
+
+(* false when cindex.dat is written at clean shutdown and never removed: it survives the crash; 10,20 | clean stop |
+   30,40 flushed | crash: the stale hull [10,20] makes RANGE [25:45] skip the chunk *)
+Theorem C07_crash_cindex_snapshot_kept_refuted : forall fx, fx_snap fx = false -> ~ range_after_crash_statement fx.
+Proof.
+  intros [fs fa fp fn fd] F H. cbn in F. subst fn.
+  pose (d0 := mkDisk (Some (Whole [O])) None (Some (Whole [(O, (10, 20))])) None [(O, (O, [10; 20]))] 1%nat).
+  destruct (start (mkFix fs fa fp false fd) d0) as [[m0 d0']|] eqn:S0; [|destruct fa; vm_compute in S0; discriminate S0].
+  assert (K0 : keys_nodup d0) by (repeat constructor; intros []).
+  pose proof (reach (mkFix fs fa fp false fd) d0 m0 d0' [SWrite O [30; 40]; SSync] K0 S0) as R.
+  set (md := run_steps (mkFix fs fa fp false fd) (m0, d0') [SWrite O [30; 40]; SSync]) in *.
+  destruct (start (mkFix fs fa fp false fd) (killed (fst md) (snd md))) as [[m' d']|] eqn:S;
+    [|destruct fa; vm_compute in S0; injection S0 as <- <-; vm_compute in S; discriminate S].
+  specialize (H (fst md) (snd md) R).
+  assert (U : chunk_ids_unique (snd md)).
+  { destruct fa; vm_compute in S0; injection S0 as <- <-; vm_compute; repeat constructor; intros []. }
+  assert (Srt : forall p, StronglySorted Z.le (events_of p (d_jrnl (snd md)))).
+  { intros p. destruct fa; vm_compute in S0; injection S0 as <- <-; destruct p as [|p]; vm_compute;
+      repeat constructor; discriminate. }
+  specialize (H U Srt m' d' S O 30 25 45).
+  destruct fa; vm_compute in S0; injection S0 as <- <-; vm_compute in S; injection S as <- <-;
+    vm_compute in H; (assert (X : False); [apply H; [right; right; left; reflexivity|reflexivity]|destruct X]).
+Qed.
+Print Assumptions C07_crash_cindex_snapshot_kept_refuted.
+
+(* the loader trusts whatever snapshot it finds - which is why a crash must never leave one: "after a start on ANY
+   directory no flushed event is hidden" is false (a directory with the hull [10,20] for a chunk holding 10,20,30,40) *)
+Theorem C07_start_trusts_snapshot_refuted : ~ range_after_start_statement code_fix.
 Proof.
   intros H.
   pose (d := mkDisk (Some (Whole [O])) None (Some (Whole [(O, (10, 20))])) None [(O, (O, [10; 20; 30; 40]))] 1%nat).
@@ -156,14 +210,14 @@ Proof.
   specialize (H d m' d' S O 30 25 45). vm_compute in S. injection S as <- <-.
   vm_compute in H. apply H; [right; right; left; reflexivity|reflexivity].
 Qed.
-Print Assumptions C07_crash_cindex_refuted.
+Print Assumptions C07_start_trusts_snapshot_refuted.
 
-(* a missing or torn snapshot is harmless: the hull rebuilt from the chunk (first, last record) hides nothing as
-   long as timestamps do not decrease inside the chunk (the other cases are C02's) *)
-Theorem C07_crash_cindex_partial : forall evs lo hi t, StronglySorted Z.le evs -> In t evs -> in_range lo hi t = true ->
+(* a hull rebuilt from the chunk (first, last record) hides nothing as long as timestamps do not decrease inside the
+   chunk (the other cases are C02's) *)
+Theorem C07_rebuilt_hull_complete : forall evs lo hi t, StronglySorted Z.le evs -> In t evs -> in_range lo hi t = true ->
   In t (range_query (light_hull evs) evs lo hi).
 Proof. exact range_rebuilt. Qed.
-Print Assumptions C07_crash_cindex_partial.
+Print Assumptions C07_rebuilt_hull_complete.
 
 (* ================= non-vacuity and reachability of the witnesses ================= *)
 (* the states used above are what real histories produce (the harness replays these histories on the server) *)
@@ -171,19 +225,19 @@ Example C07_witnesses_reachable :
   (* write 10,20,30; flush; write 40; graceful stop; start: everything is back; without the sync 40 is gone *)
   run_sessions code_fix 1 15 25 empty_disk [mkSession [SWrite 0 [10; 20; 30]; SSync; SWrite 0 [40]] true []]
     = [OStarted [None] [] [[]]; OStarted [Some [10; 20; 30; 40]] [] [[20]]] /\
-  run_sessions (mkFix false true true) 1 15 25 empty_disk [mkSession [SWrite 0 [10; 20; 30]; SSync; SWrite 0 [40]] true []]
+  run_sessions (mkFix false true true true true) 1 15 25 empty_disk [mkSession [SWrite 0 [10; 20; 30]; SSync; SWrite 0 [40]] true []]
     = [OStarted [None] [] [[]]; OStarted [Some [10; 20; 30]] [] [[20]]] /\
   (* a crash inside the tag-index save: harmless; with the in-place saver (rename window, torn write) the server refuses to start *)
   run_sessions code_fix 1 15 25 empty_disk [mkSession [SWrite 0 [10; 20; 30]; SSync] true [GTRenamed; GTTorn 0]]
     = [OStarted [None] [] [[]]; OStarted [Some [10; 20; 30]] [] [[20]]] /\
-  run_sessions (mkFix true false true) 1 15 25 empty_disk [mkSession [SWrite 0 [10; 20; 30]; SSync] true [GTRenamed]]
+  run_sessions (mkFix true false true true true) 1 15 25 empty_disk [mkSession [SWrite 0 [10; 20; 30]; SSync] true [GTRenamed]]
     = [OStarted [None] [] [[]]; ORefused] /\
-  run_sessions (mkFix true false true) 1 15 25 empty_disk [mkSession [SWrite 0 [10; 20; 30]; SSync] true [GTTorn 0]]
+  run_sessions (mkFix true false true true true) 1 15 25 empty_disk [mkSession [SWrite 0 [10; 20; 30]; SSync] true [GTTorn 0]]
     = [OStarted [None] [] [[]]; ORefused] /\
   (* pipe created, SIGKILL: it is there; saved at shutdown only: gone *)
   run_sessions code_fix 1 15 25 empty_disk [mkSession [SPipe 0] false []]
     = [OStarted [None] [] [[]]; OStarted [None] [0%nat] [[]]] /\
-  run_sessions (mkFix true true false) 1 15 25 empty_disk [mkSession [SPipe 0] false []]
+  run_sessions (mkFix true true false true true) 1 15 25 empty_disk [mkSession [SPipe 0] false []]
     = [OStarted [None] [] [[]]; OStarted [None] [] [[]]] /\
   (* a shutdown that dies inside the pipes save (acknowledged 40 still buffered: a crash may lose it) *)
   run_sessions code_fix 1 15 25 empty_disk [mkSession [SWrite 0 [10; 20; 30]; SSync; SWrite 0 [40]; SPipe 0] false [GPTorn 1]]
@@ -197,9 +251,17 @@ Example C07_witnesses_reachable :
                                             mkSession [SSync; SWrite 0 [40]; SDrain 0 1] true []]
     = [OStarted [None; None] [] [[]; []]; OStarted [Some [10; 20; 30]; Some [10; 20]] [4%nat] [[20]; [20]];
        OStarted [Some [10; 20; 30; 40]; Some [10; 20; 30]] [4%nat] [[20]; [20]]] /\
-  (* 10,20 | clean stop | 30,40 flushed | SIGKILL: hidden from RANGE [25:45] (the recorded finding) *)
+  (* 10,20 | clean stop | 30,40 flushed | SIGKILL: RANGE [25:45] shows them; with a snapshot that survives the crash it does not *)
   run_sessions code_fix 1 25 45 empty_disk [mkSession [SWrite 0 [10; 20]; SSync] true []; mkSession [SWrite 0 [30; 40]; SSync] false []]
-    = [OStarted [None] [] [[]]; OStarted [Some [10; 20]] [] [[]]; OStarted [Some [10; 20; 30; 40]] [] [[]]].
+    = [OStarted [None] [] [[]]; OStarted [Some [10; 20]] [] [[]]; OStarted [Some [10; 20; 30; 40]] [] [[30; 40]]] /\
+  run_sessions (mkFix true true true false true) 1 25 45 empty_disk [mkSession [SWrite 0 [10; 20]; SSync] true []; mkSession [SWrite 0 [30; 40]; SSync] false []]
+    = [OStarted [None] [] [[]]; OStarted [Some [10; 20]] [] [[]]; OStarted [Some [10; 20; 30; 40]] [] [[]]] /\
+  (* a crash between the two effects of the removal of partition 1: the server starts (the partition is there, empty); with
+     the record removed first it refuses *)
+  run_sessions code_fix 2 15 25 empty_disk [mkSession [SWrite 0 [10; 20]; SWrite 1 [5]; SSync] true [GTOrphan 1]]
+    = [OStarted [None; None] [] [[]; []]; OStarted [Some [10; 20]; Some []] [] [[20]; []]] /\
+  run_sessions (mkFix true true true true false) 2 15 25 empty_disk [mkSession [SWrite 0 [10; 20]; SWrite 1 [5]; SSync] true [GTOrphan 1]]
+    = [OStarted [None; None] [] [[]; []]; ORefused].
 Proof. vm_compute. repeat split. Qed.
 
 (* a reachable (hence consistent) running state with a buffered event, as the hypotheses of the clean theorems require *)
